@@ -29,6 +29,7 @@ type manShadow struct {
 	at       string          // artifact type used by the filter
 	blobGone bool
 	respLost bool // a collection ran while the subject was not a manifest of the repository: the response is dropped with its subject (F35)
+	tagged   bool // acknowledged under a tag at least once since it was last absent (it then has an index entry of its own)
 	noRoot   bool // a collection ran while the manifest had no index entry of its own and no top-level entry led to it (F33/F39)
 }
 
@@ -48,6 +49,7 @@ type repoShadow struct {
 	orphans  map[string]bool       // digests that were children of an index since deleted by digest
 	deleted  map[string]bool       // blobs whose last acknowledged request was a delete through the blob API
 	refDirty bool                  // referrers bookkeeping no longer exact (blob of an artifact deleted, switch toggled …)
+	twinned  bool                  // a push of the bytes of a referrers response document was acknowledged here
 }
 
 type Monitors struct {
@@ -84,7 +86,17 @@ func newMonitors(w *bufio.Writer) *Monitors {
 	return &Monitors{w: w, count: map[string]int{}, repos: map[string]*repoShadow{}, sess: map[int]*sessShadow{}}
 }
 
+// twinCaused: monitors whose hits, in a repository where a client has pushed the very bytes of a referrers response
+// document as a manifest of its own, carry the cause suffix of known finding F43 (index entries of the response and of
+// the client's manifest are one and the same: deleting either, or a change of the list, takes the other along)
+var twinCaused = map[string]bool{"C07.refs-exact": true, "C07.filter": true, "C07.paging": true, "C02.readback": true}
+
 func (m *Monitors) flag(h *H, name, detail string) {
+	if twinCaused[name] && h.curRepo != "" {
+		if rs, ok := m.repos[h.curRepo]; ok && rs.twinned {
+			name += ".twin-of-response"
+		}
+	}
 	m.count[name]++
 	if m.w != nil {
 		fmt.Fprintf(m.w, "MON %d %s %s\n", h.lineNo, name, strings.ReplaceAll(detail, "\n", " "))
@@ -774,6 +786,9 @@ func (m *Monitors) refusedUnchanged(h *H, repo, ref string, body []byte, r Resp)
 	if m.noProbes || r.Status < 400 || r.Status >= 500 || rs.dirty || !m.routable(h, repo) || len(body) == 0 {
 		return
 	}
+	if strings.HasPrefix(h.tk.contentName(body), "R(") {
+		return // the bytes of a referrers response document: the registry may hold them on its own account
+	}
 	acc := map[string][]string{"Accept": {mtReal["ocim"], mtReal["ocii"], mtReal["dockm"], mtReal["dockl"]}}
 	if types.RefTagRE.MatchString(ref) {
 		g := h.do("HEAD", "/v2/"+repo+"/manifests/"+ref, reqOpt{mode: "head", hdr: acc})
@@ -823,6 +838,9 @@ func (m *Monitors) mPut(h *H, a []string, r Resp) {
 		m.flag(h, "C02.limit", fmt.Sprintf("manifest of %d bytes acknowledged, limit %d", len(body), limit))
 	}
 	bi := h.bodyInfo(name)
+	if strings.HasPrefix(name, "R(") {
+		m.repo(repo).twinned = true
+	}
 	ct := kv(a, "ct")
 	alg := digest.SHA256
 	isTag := types.RefTagRE.MatchString(ref)
@@ -883,6 +901,9 @@ func (m *Monitors) mPut(h *H, a []string, r Resp) {
 		rs.mans[real] = ms
 	}
 	ms.blobGone = false
+	if isTag {
+		ms.tagged = true
+	}
 	delete(rs.deleted, real)
 	delete(m.aged, repo+"|"+real) // a pushed manifest is recent, also when its bytes were there already (C05)
 	ms.respLost = false           // a push registers the manifest with its subject again
@@ -973,11 +994,34 @@ func (m *Monitors) mDel(h *H, a []string, r Resp) {
 	m.common(h, "MDEL", r)
 	repo, ref := a[0], a[1]
 	rs := m.repo(repo)
+	// C03: deleting by digest removes the manifest: an acknowledged manifest that was neither deleted nor collected is not "unknown"
+	if r.Status == 404 && !types.RefTagRE.MatchString(ref) && validDigestTok(ref) && !rs.dirty && m.routable(h, repo) {
+		if ms, ok := rs.mans[h.tk.realDigest(ref)]; ok && !ms.noRoot {
+			name := "C03.delete-refused"
+			if strings.HasPrefix(h.tk.contentName(ms.raw), "R(") && !ms.tagged {
+				// the twin of a response pushed by digest only: it was acknowledged on the strength of the registry's own entry, which is
+				// not deleted as a manifest and which a change of the list replaces (F43)
+				name += ".twin-without-entry"
+			}
+			m.flag(h, name, fmt.Sprintf("delete of the acknowledged manifest %s answered %d %s", ref, r.Status, r.Code))
+		}
+	}
 	if r.Status != 202 {
 		return
 	}
 	if types.RefTagRE.MatchString(ref) {
-		delete(rs.tags, ref)
+		if was, ok := rs.tags[ref]; ok {
+			delete(rs.tags, ref)
+			// removing the last tag of a twin may remove its own entry (the response entry of the same digest counts as the one that stays)
+			if ms, ok := rs.mans[was]; ok && strings.HasPrefix(h.tk.contentName(ms.raw), "R(") {
+				ms.tagged = false
+				for _, d := range rs.tags {
+					if d == was {
+						ms.tagged = true
+					}
+				}
+			}
+		}
 		return
 	}
 	if !validDigestTok(ref) {
